@@ -293,6 +293,9 @@ def execute(case, stats):
         oplog = list(world.oplog)
         summary = world.check('clean', True)
         prunes += _tally(world, oplog, uploads)
+        gapped = world.gap_instances()
+        stats.count('reader_runs_clean', summary['reader_runs'])
+        stats.count('reader_duplicates_clean', summary['reader_duplicates'])
         if tmp.leftovers():
             raise AssertionError('clean run left scratch files behind')
 
@@ -380,6 +383,8 @@ def execute(case, stats):
             stats.count('class:all-families-and-pruning')
         if nontrivial and steps:
             stats.count('class:multi-pass')
+        if gapped:
+            stats.count('class:instance-spans-gap-snapshot')
         return nontrivial
 
 
